@@ -6,7 +6,12 @@
 //! case  inp = { ft: "f64"|"f32", p, ds, data: [[int]] (value = int/ds), k, init: "kmeans"|"random",
 //!               seed, regn/regd, toln/told, runs, maxit, queries: [[int]] (value = int/ds) }
 //! events
-//!   fit     : { ok, err (variant name of GmmError), msg }
+//!   fit     : { ok, err (variant name of GmmError), msg, hooked, runs: [ {n, lbk, d} ] }
+//!             runs: from the `gmm.iter` hook events of this fit (linfa commit 96442e7; they need the
+//!             environment variable LINFA_VERIF_STEPS; empty when the tree has no such hook):
+//!             per run the number of EM iterations, the order key of its last lower bound and the last
+//!             change of the lower bound d = fx(lb - prev, 1e9), dnum = false when that is not a number below 2^30
+//!             (one-iteration run: +inf)
 //!   model   : { k, p, num (every parameter is finite and encodable), ws, w, wkey, ms, means,
 //!               cs[k], cov[k][p][p], ps[k], prec[k][p][p] }     (only after ok)
 //!   predict : { rows: [ { num, proba, pkey, label, label_ds, num1, proba1, pkey1, label1 } ] }
@@ -89,6 +94,69 @@ fn mat_scaled<F: Float>(m: &ArrayView2<F>) -> (f64, Value) {
     (sc, v)
 }
 
+// hook events: the buffer of linfa::verif_hook is process-global and the cases run on several threads;
+// events carry a per-thread `tid`, so every drain is sorted into a stash keyed by tid (as in c13.rs)
+static STASH: std::sync::Mutex<Option<std::collections::HashMap<i64, Vec<Value>>>> = std::sync::Mutex::new(None);
+static MARKS: std::sync::atomic::AtomicI64 = std::sync::atomic::AtomicI64::new(1);
+
+fn hook_mark() -> i64 {
+    let id = MARKS.fetch_add(1, std::sync::atomic::Ordering::SeqCst);
+    linfa::verif_hook::emit(&format!("\"ev\":\"c10.mark\",\"mark\":{}", id));
+    id
+}
+/// the hook events of the calling thread recorded after mark `id`
+fn hook_collect(id: i64) -> Vec<Value> {
+    let mut g = STASH.lock().unwrap();
+    let stash = g.get_or_insert_with(std::collections::HashMap::new);
+    for line in linfa::verif_hook::drain() {
+        // other hooks fire as well (k-means initialisation: one event per row from pool threads)
+        if !(line.contains("\"gmm.iter\"") || line.contains("\"c10.mark\"")) {
+            continue;
+        }
+        if let Ok(v) = vh::serde_json::from_str::<Value>(&line) {
+            let tid = v.get("tid").and_then(|x| x.as_i64()).unwrap_or(-1);
+            stash.entry(tid).or_default().push(v);
+        }
+    }
+    let mine = stash.iter().find(|(_, evs)| evs.iter().any(|e| e["ev"] == "c10.mark" && e["mark"] == json!(id))).map(|(t, _)| *t);
+    match mine {
+        None => vec![],
+        Some(tid) => {
+            let evs = stash.remove(&tid).unwrap_or_default();
+            let pos = evs.iter().rposition(|e| e["ev"] == "c10.mark" && e["mark"] == json!(id)).unwrap_or(0);
+            evs.into_iter().skip(pos + 1).filter(|e| e["ev"] == "gmm.iter").collect()
+        }
+    }
+}
+/// per run (events `gmm.iter` {run, it (1-based), prev, lb: bit patterns as hex strings}): iterations,
+/// key of the last lower bound, last change
+fn run_summaries(evs: &[Value]) -> Vec<Value> {
+    let mut runs: Vec<(i64, f64, f64)> = vec![];
+    let hexf = |v: &Value| -> f64 {
+        v.as_str().and_then(|h| u64::from_str_radix(h, 16).ok()).map(f64::from_bits).unwrap_or(f64::NAN)
+    };
+    let mut cur_run = -1;
+    for e in evs {
+        let run = e["run"].as_i64().unwrap_or(-1);
+        let it = e["it"].as_i64().unwrap_or(-1); // 1-based
+        let lb = hexf(&e["lb"]);
+        let prev = hexf(&e["prev"]);
+        if run != cur_run || runs.is_empty() {
+            cur_run = run;
+            runs.push((0, lb, lb - prev));
+        }
+        let last = runs.last_mut().unwrap();
+        *last = (it, lb, lb - prev);
+    }
+    runs.iter()
+        .map(|(n, lb, d)| {
+            let e = fx(*d, 1e9);
+            let num = is_int(&e);
+            json!({"n": n, "lbk": key64(*lb), "lbfin": lb.is_finite(), "dnum": num, "d": if num { e } else { json!(0) }})
+        })
+        .collect()
+}
+
 fn err_kind(e: &GmmError) -> &'static str {
     match e {
         GmmError::InvalidValue(_) => "InvalidValue",
@@ -148,17 +216,22 @@ fn run_t<F: Float>(inp: &Value) -> Vec<Value> {
             .init_method(init)
     };
     let params = mk_params(maxit, runs);
-    let gmm = match guarded(|| params.fit(&dataset)) {
+    let mark = hook_mark();
+    let fitted = guarded(|| params.fit(&dataset));
+    let hook_evs = hook_collect(mark);
+    let hooked = !hook_evs.is_empty();
+    let run_sums = run_summaries(&hook_evs);
+    let gmm = match fitted {
         Err(msg) => {
             ev.push(panic_event("fit", &msg));
             return ev;
         }
         Ok(Err(e)) => {
-            ev.push(json!({"ev": "fit", "ok": false, "err": err_kind(&e), "msg": clean(&e.to_string())}));
+            ev.push(json!({"ev": "fit", "ok": false, "err": err_kind(&e), "msg": clean(&e.to_string()), "hooked": hooked, "runs": run_sums}));
             return ev;
         }
         Ok(Ok(g)) => {
-            ev.push(json!({"ev": "fit", "ok": true, "err": "", "msg": ""}));
+            ev.push(json!({"ev": "fit", "ok": true, "err": "", "msg": "", "hooked": hooked, "runs": run_sums}));
             g
         }
     };
@@ -297,5 +370,6 @@ fn run(case: &Value) -> Vec<Value> {
 }
 
 fn main() {
+    linfa::verif_hook::enable(true);
     run_cases(run);
 }
